@@ -30,6 +30,10 @@ func kindOperand(v ssa.Value) (ssa.Value, bool) {
 		return throughCell(recv), true
 	}
 	if recv, _, ok := reflectTypeInvoke(v, "Kind"); ok {
+		// the kind of v.Type() is the kind of v
+		if val, _, isType := reflectValueCall(throughCell(recv), "Type"); isType {
+			return throughCell(val), true
+		}
 		return throughCell(recv), true
 	}
 	return nil, false
@@ -270,5 +274,90 @@ func activationBuffersRule(r *Run, rule string, pick func(fn *ssa.Function) bool
 	}
 	if nSites == 0 {
 		r.Ok(rule, "plush", "no buffer sites in "+what, "-", "nothing to own")
+	}
+}
+
+// sharedTemplateRule (C14.R6): a *Template is shared - the cache hands the same one to every caller
+// of Parse/Render, and Exec runs on it from many goroutines. Apart from the parsed program (written
+// once, under the nil test: R1) its fields are only read: no function of the package stores into a
+// field of a Template it did not just build, and no field's address is handed to other code (a
+// buffer kept in the template and reset by every Exec).
+func sharedTemplateRule(r *Run, rule string) {
+	w := r.W
+	w.SSA()
+	pkg := w.SSAPkg("")
+	tt := w.NamedType("", "Template")
+	if pkg == nil || tt == nil {
+		r.Lost(rule, "Template type")
+		return
+	}
+	st, ok := tt.Underlying().(*types.Struct)
+	if !ok {
+		r.Lost(rule, "Template struct")
+		return
+	}
+	progIdx := -1
+	for i := 0; i < st.NumFields(); i++ {
+		if namedIs(st.Field(i).Type(), astPath, "Program") {
+			progIdx = i
+		}
+	}
+	isTemplatePtr := func(t types.Type) bool {
+		pt, ok := t.(*types.Pointer)
+		if !ok {
+			return false
+		}
+		n, ok := pt.Elem().(*types.Named)
+		return ok && n.Obj() == tt.Obj()
+	}
+	n := 0
+	for _, fn := range functionsOf(pkg) {
+		for _, b := range fn.Blocks {
+			for _, ins := range b.Instrs {
+				fa, ok := ins.(*ssa.FieldAddr)
+				if !ok || !isTemplatePtr(fa.X.Type()) || fa.Referrers() == nil {
+					continue
+				}
+				// a template under construction (a literal of this function) is not shared yet
+				if al, isAlloc := fa.X.(*ssa.Alloc); isAlloc && al.Heap {
+					continue
+				}
+				n++
+				name := ssaName(fn)
+				con := "field " + st.Field(fa.Field).Name() + " of a Template"
+				bad := ""
+				for _, ref := range *fa.Referrers() {
+					switch x := ref.(type) {
+					case *ssa.UnOp, *ssa.DebugRef:
+					case *ssa.Store:
+						if x.Addr == ssa.Value(fa) && fa.Field != progIdx {
+							bad = "the field is written: executions of one template on several goroutines (the cache shares it) race on it"
+						}
+						if x.Val == ssa.Value(fa) {
+							bad = "the address of the field is stored"
+						}
+					case *ssa.FieldAddr, *ssa.IndexAddr:
+						// a part of the field: judged where it is used (conservatively: any use other than a load)
+						for _, r2 := range *x.(ssa.Value).Referrers() {
+							if _, isLoad := r2.(*ssa.UnOp); !isLoad {
+								if _, isDbg := r2.(*ssa.DebugRef); !isDbg {
+									bad = "a part of the field is written or handed on"
+								}
+							}
+						}
+					default:
+						bad = "the address of the field is handed to other code (a buffer or cache kept in the template): every Exec of the shared template then works on the same storage"
+					}
+				}
+				if bad != "" {
+					r.Bad(rule, name, con, w.Pos(fa.Pos()), bad)
+				} else {
+					r.Ok(rule, name, con, w.Pos(fa.Pos()), "only read (the program field: written once under the nil test, R1)")
+				}
+			}
+		}
+	}
+	if n == 0 {
+		r.Lost(rule, "uses of the fields of Template")
 	}
 }
